@@ -54,6 +54,41 @@ EXTREME = [
     "10 ON A GOTO " + ",".join(["10"] * 300),
 ]
 
+def scaled_inputs():
+    """Every list-like or chain-like construct of the language, far longer than any listing would have it: the passes
+    over the parsed program are recursive, so size alone can exhaust the interpreter's stack."""
+    out = []
+    for n in (1000, 3000):
+        for op in ("+", "-", "*", "/", "^", " AND ", " OR ", "=", "<"):
+            out.append("10 A=B" + (op + "B") * n)
+        out.append('10 A$="X"' + '+"X"' * n)
+        out.append("10 IF A$" + "+A$" * n + '="" THEN 10')
+        out.append("10 PRINT A" + ";A" * n)
+        out.append("10 PRINT A" + ",B$" * n)
+        out.append('10 PRINT "X"' * 1 + ' "X"' * n)
+        out.append("10 DATA 1" + ",1" * n)
+        out.append("10 DATA " + ",".join(["", "X", '"Y"', "1"] * (n // 4)) + "\n20 READ A$")
+        out.append("10 A=1" + ":A=1" * n)
+        out.append("\n".join("%d A=%d" % (i, i) for i in range(1, n + 1)))
+        out.append("10 ON A GOTO 10" + ",10" * n)
+        out.append("10 DIM A(1)" + "".join(",B%s(1)" % chr(65 + i % 26) for i in range(n)))
+        out.append("10 READ A" + ",A" * n)
+        out.append("10 INPUT A" + ",A" * n)
+        out.append("10 FOR I=1 TO 2:NEXT I" + ",I" * n)
+        out.append("10 A=B(" + "1," * n + "1)")
+        out.append("10 A=" + "B(" * (n // 10) + "1" + ")" * (n // 10))
+        out.append("10 A=" + "-" * n + "1")
+        out.append("10 REM " + "X" * n * 10)
+        out.append('10 A$="' + "X" * n * 10 + '"')
+        out.append("10 A=" + "1" * n)
+        out.append("10 A=." + "1" * n)
+        out.append("10 A" + " " * n * 10 + "=1")
+        out.append("10 GOSUB 20" + ":GOSUB 20" * n + "\n20 RETURN")
+        out.append("10 " + "IF A THEN " * (n // 20) + "B=1")
+        out.append("10 SOUND 1,1" + ":SOUND 1,1" * n)
+    return out
+
+
 BAD_CONFIGS = [{"A$": 0}, {"A": 3}, {"AAA$": 1}, {"A$": 32767}, {"a$": 5}, {"A$()": 10, "B$": 20}, {"_$": 1}, {"A$$": 2},
                {"A()": 3}, {"": 1}, {"A$": -1}, {"A$": 10 ** 9}, {"1A$": 4}, {"A1$": 4}, {"A_$()": 7}]
 
@@ -101,7 +136,9 @@ def option_set(rng):
     if rng.random() < 0.4:
         o["default_str_storage"] = rng.choice([1, 32, 33, 80, 255, 32767, 0, -1])
     if rng.random() < 0.5:
-        o["procname"] = rng.choice(["p", "my-prog", "a_b", "9", "-", "x" * 40, "", "my prog", "é", "a.b"])
+        # including names of runtime procedures the program itself may call (the program is filed in the same bank)
+        o["procname"] = rng.choice(["p", "my-prog", "a_b", "9", "-", "x" * 40, "", "my prog", "é", "a.b", "_ecb_start", "ecb_cls",
+                                    "ecb_str", "_ecb_text_address", "ecb_int", "inkey", "program"])
     return o
 
 
@@ -204,6 +241,8 @@ def cases(tier, seed):
     n = 6000 if tier == "quick" else 1000000
     for i in range(n):
         yield {"kind": "mut", "seed": seed * 1000003 + i, "nmut": i % 4, "sample": i % 997 == 0}
+    for t in scaled_inputs():
+        yield {"kind": "text", "text": t, "opts": {}}
     for t in EXTREME:
         yield {"kind": "text", "text": t}
         yield {"kind": "text", "text": t, "opts": {"initialize_vars": True, "filter_unused_linenum": True,
@@ -211,11 +250,11 @@ def cases(tier, seed):
     for m in BAD_CONFIGS:
         yield {"kind": "cfg", "text": '10 DIM A$(3),B$:A$(1)="X"', "map": m}
     rng = random.Random(4242 + seed)
-    stems = ["prog", "my-prog", "a_b", "9", "-", "--x", "A-B_c9", "x" * 60, "_", "-z", "0-0"]
+    stems = ["prog", "my-prog", "a_b", "9", "-", "--x", "A-B_c9", "x" * 60, "_", "-z", "0-0", "_ecb_start", "ecb_cls", "ecb_str", "ecb_hex"]
     flagsets = [[], ["-l"], ["-z"], ["-D"], ["-w"], ["-s", "80"], ["-l", "-z", "-D", "-w", "-s", "1"], ["-s", "0"], ["-s", "x"],
                 ["-c", "/nonexistent.yaml"], ["-q"]]
     texts = ["10 PRINT \"HI\"\n20 GOTO 10\n", "10 A=.\n", "10 CLS:HSCREEN 2:HBUFF 1,100\n", "", "10 A$=HEX$(1)+STR$(2)\n"]
-    m = 60 if tier == "quick" else 600
+    m = 150 if tier == "quick" else 1650
     for i in range(m):
         yield {"kind": "cli", "stem": stems[i % len(stems)], "flags": flagsets[(i // len(stems)) % len(flagsets)],
                "text": texts[i % len(texts)]}
